@@ -118,6 +118,13 @@ def rand_ast(rng, sigma, depth, p_prod=0.18, prod_budget=None):
     return (rng.choice(["star", "plus", "opt"]), rand_ast(rng, sigma, depth - 1, p_prod, prod_budget))
 
 
+def has_zero_upper(r):
+    """An {m,0} repetition somewhere (the shape of the C10 upper-bound-0 defect)."""
+    if r[0] == "rep" and r[3] == 0:
+        return True
+    return any(has_zero_upper(x) for x in r[1:] if isinstance(x, tuple))
+
+
 def quant_text(lo, hi, rng=None):
     a = str(lo)
     if lo == 0 and rng is not None and rng.random() < 0.5:
